@@ -8,6 +8,7 @@ package main
 // whether a dispatch is written as a switch or as a table.
 
 import (
+	"fmt"
 	"go/constant"
 	"go/token"
 	"go/types"
@@ -175,6 +176,23 @@ func buildConstTables(pkg *ssa.Package) map[*ssa.Global]*constTable {
 									if f != initFn || r.Addr != ssa.Value(x) {
 										delete(cands, g)
 									}
+								case *ssa.FieldAddr:
+									// a field of a struct element: stored to by the initialiser only, loaded elsewhere
+									for _, ref2 := range *r.Referrers() {
+										switch r2 := ref2.(type) {
+										case *ssa.UnOp:
+											if r2.Op != token.MUL {
+												delete(cands, g)
+											}
+										case *ssa.Store:
+											if f != initFn || r2.Addr != ssa.Value(r) {
+												delete(cands, g)
+											}
+										case *ssa.DebugRef:
+										default:
+											delete(cands, g)
+										}
+									}
 								case *ssa.DebugRef:
 								default:
 									delete(cands, g)
@@ -312,11 +330,20 @@ func zeroConst(t types.Type) ssa.Value {
 	return ssa.NewConst(nil, t)
 }
 
-// tableElem resolves the load of an element of a constant array table with a known index.
+// tableElem resolves the load of an element of a constant array table with a known index (for a table of
+// structs: the load of a field of the element; the load of the whole element leaves its fields known).
 func (p *pwPath) tableElem(ld *ssa.UnOp) (ssa.Value, bool) {
 	ia, ok := ld.X.(*ssa.IndexAddr)
+	field := -1
 	if !ok {
-		return nil, false
+		fa, isFA := ld.X.(*ssa.FieldAddr)
+		if !isFA {
+			return nil, false
+		}
+		if ia, ok = p.resolve(fa.X).(*ssa.IndexAddr); !ok {
+			return nil, false
+		}
+		field = fa.Field
 	}
 	g, ok := ia.X.(*ssa.Global)
 	if !ok {
@@ -334,6 +361,26 @@ func (p *pwPath) tableElem(ld *ssa.UnOp) (ssa.Value, bool) {
 		if _, have := p.stores[a]; !have {
 			p.stores[a] = v
 		}
+	}
+	if st, isStruct := t.valType.Underlying().(*types.Struct); isStruct {
+		// the element's fields: what the initialiser stored, the zero value otherwise
+		ek := p.addrKey(ia)
+		if ek == "" {
+			return nil, false
+		}
+		for i := 0; i < st.NumFields(); i++ {
+			fk := fmt.Sprintf("%s.%d", ek, i)
+			if _, have := p.stores[fk]; !have {
+				p.stores[fk] = zeroConst(st.Field(i).Type())
+			}
+		}
+		if field >= 0 && field < st.NumFields() {
+			return p.stores[fmt.Sprintf("%s.%d", ek, field)], true
+		}
+		return nil, false // the whole element: a struct value whose fields are known (structField)
+	}
+	if field >= 0 {
+		return nil, false
 	}
 	if v, found := t.lookup(k); found {
 		return v, true
